@@ -80,6 +80,66 @@ def run(rep, tier):
         nb = kspipe.report(rep, events, bad, {"scr", "fill"}, name + "x")
         rep.extra.setdefault("corpora", []).append({"corpus": name + " (exact scratch)", "descriptors": n, "events": len(events), "scratch_calls": calls})
         log("[C12] corpus %s exact: %d behaviours (%d library calls in exact-size windows), %d rejected" % (name, len(events), calls, nb))
+    # 2d. poulpy-ckks: straight-line programs of the evaluator (Gen_C16, the C16 generator: every operation family, destinations
+    #     smaller / larger than the natural result, in-place forms, plaintext operands in both forms, fused and composite
+    #     operations) with EVERY step in a window of exactly the bytes its companion query returns, on two scratch fills
+    def scrpairs(label, ep, n_expected):
+        t = common.tlc("Mem/ScrPairTrace", env={"TRACE": ep}, workers=1, wd=wd, timeout=3600, xmx="4g")
+        common.tlc_must(t, "ScrPairTrace " + label)
+        v = t.printed("VERDICT")
+        if not t.ok or not v or t.distinct != n_expected + 1:
+            raise ToolError("ScrPairTrace %s did not complete:\n%s" % (label, t.out[-3000:]))
+        rep.add_tlc(t, "trace:" + label)
+        parts = v[0].split(", ")
+        return json.loads(json.loads(v[0].split(", ", 1)[1].rsplit(", ", 1)[0])), int(parts[-1].rstrip(">").strip())
+    nprog = 60 if quick else 600
+    cev_all = []
+    for cfg in ("fft", "ntt"):
+        g = common.tlc("Ckks/Gen_C16", cfg="Ckks/Gen_C16_" + cfg, workers=1, wd=wd, simulate=nprog, depth=60, seed=common.seed(), timeout=3600)
+        common.tlc_must(g, "Gen_C16 " + cfg)
+        progs = [json.loads(json.loads(x)) for x in g.printed("PROG")]
+        if len(progs) < nprog // 2:
+            raise ToolError("Gen_C16 %s produced %d programs\n%s" % (cfg, len(progs), g.out[-1500:]))
+        for i, pr in enumerate(progs):
+            pr["id"] = i + 1
+            pr["scr"] = "exact"
+        pp, ep = os.path.join(wd, "ckks.%s.progs.ndjson" % cfg), os.path.join(wd, "ckks.%s.events.ndjson" % cfg)
+        common.write_ndjson(pp, progs)
+        hp = common.harness(["ckks", pp, ep], timeout=7200)
+        if hp.returncode != 0:
+            raise ToolError("harness ckks (exact scratch) failed rc=%d\n%s" % (hp.returncode, hp.stdout[-3000:]))
+        ev = common.read_ndjson(ep)
+        cbad, ntakes = scrpairs("ckks-" + cfg, ep, len(ev))
+        ncalls = sum(len(r_["calls"]) for e in ev for r_ in e["scr"])
+        total += ncalls
+        rep.evaluations += ncalls
+        rep.distinct += len(ev)
+        rep.traces += len(ev)
+        seen_c = set()
+        for k, kind in cbad:
+            e = ev[k - 1]
+            # name the first offending step
+            step, why = None, ""
+            for si in range(len(e["scr"][0]["calls"])):
+                cs = [r_["calls"][si] for r_ in e["scr"] if si < len(r_["calls"])]
+                if kind == "fill":
+                    ds = [r_["digests"][si] for r_ in e["scr"] if si < len(r_["digests"])]
+                    if len(set(json.dumps(x if x[0] == "ok" else [x[0], ""]) for x in ds)) > 1:
+                        step = si
+                        break
+                elif any((not c["canary"]) or "Attempted to take" in c["panic"] or "scratch" in c["panic"].lower() for c in cs):
+                    step = si
+                    break
+            op = e["prog"][step]["op"] if step is not None else "?"
+            key = "ckks:%s:%s" % (kind, op)
+            if key in seen_c:
+                continue
+            seen_c.add(key)
+            rep.violation(key, "CKKS step %s in a window of exactly its declared scratch rejected by ScrPairTrace (%s)" % (op, kind),
+                          {"program": e["prog"][:(step or 0) + 1], "b": e["b"], "be": e["be"], "kmax": e["kmax"], "calls": [r_["calls"][step] for r_ in e["scr"]] if step is not None else []})
+        rep.extra.setdefault("corpora", []).append({"corpus": "ckks programs %s (exact scratch)" % cfg, "programs": len(ev), "scratch_calls": ncalls, "programs_taking_scratch": ntakes})
+        log("[C12] ckks %s: %d programs, %d steps in exact-size windows on 2 fills, %d rejected" % (cfg, len(ev), ncalls, len(cbad)))
+        cev_all += ev
     # 3. monotonicity of the shape-parameterised size queries
     tb = os.path.join(wd, "tmpbytes.ndjson")
     rowsall = []
@@ -103,5 +163,5 @@ def run(rep, tier):
     rep.rule = ("every scratch-taking HAL call of the c09/c07/c08 corpora run in a canary-guarded window of exactly the number of bytes its companion query returns, on 4 back-ends x 2 "
                 "scratch fills; hook H4 logs every take and Scratch.tla replays the log (arena discipline, no failed take, high-water <= declared); results must not depend on the "
                 "scratch fill; size queries checked monotone over a grid; distinct = events that take scratch")
-    rep.assumptions += ["HAL layer plus the core key-switching / automorphism / trace / packing / LWE conversion / external product / CMux pairs (with their key generation and preparation calls); CKKS and bin-fhe pairs pending",
+    rep.assumptions += ["HAL layer plus the core key-switching / automorphism / trace / packing / LWE conversion / external product / CMux pairs (with their key generation and preparation calls); the CKKS evaluator's (operation, size query) pairs through whole programs; bin-fhe: word operations, preparation and retrieval only",
                         "window base is 64-byte aligned as ScratchOwned::alloc guarantees"]
